@@ -144,7 +144,7 @@ func ruleC02VersionGate(c *Ctx) {
 			continue
 		}
 		n++
-		root, steps := c.accessPath(gate.Call.Args[0])
+		root, steps := c.accessPath(upValue(gate.Call.Args[0], gateFI.Path))
 		_, isParam := root.(*ssa.Parameter)
 		c.R.Check(isParam && pathString(steps) == "Resolved.root/Schema.Schema", rule, "gate-subject:"+name, c.pos(gate), "the predicate is applied to the root schema's $schema", "the version predicate is applied to "+pathString(steps)+", not to the root's $schema")
 		// false outcome -> error
